@@ -792,6 +792,9 @@ class MultiUserChannelMatrix:  # pylint: disable=R0902
             return self._big_H_no_pathloss
 
         if self._big_H_with_pathloss is None:
+            # The number of antennas may have changed (randomize or
+            # init_from_channel_matrix) since the path loss was set
+            self._update_pathloss_big_matrix()
             # Apply path loss. Note that the _pathloss_big_matrix
             # matrix has the same dimension as the
             # self._big_H_no_pathloss matrix and we are performing
@@ -1042,6 +1045,18 @@ class MultiUserChannelMatrix:  # pylint: disable=R0902
         # modification of individual elements in both of them.
         self._big_H_no_pathloss.setflags(write=False)
         self._H_no_pathloss.setflags(write=False)
+
+    def _update_pathloss_big_matrix(self) -> None:
+        """
+        Re-compute the path loss for each element of the big channel matrix
+        from the current path loss matrix and the current number of antennas.
+        """
+        if self._pathloss_matrix is not None:
+            Kr, Kt = self._pathloss_matrix.shape
+            self._pathloss_big_matrix \
+                = MultiUserChannelMatrix._from_small_matrix_to_big_matrix(
+                    self._pathloss_matrix, self._Nr, self._Nt, Kr, Kt)
+            self._pathloss_big_matrix.setflags(write=False)
 
     def get_Hkl(self, k: int, l: int) -> np.ndarray:
         """
